@@ -1,7 +1,7 @@
 from engine import Obl
 
 META = {
- "level_text": "CBMC bounded model checking of the real admission path: (A) qb_ipc_auth_creds over a received message whose ancillary buffer holds an SCM_CREDENTIALS record with ARBITRARY pid/uid/gid, alone or behind a record of another type; (B) one handle_new_connection() (lib/ipc_setup.c) through the real lib/ipcs.c and the real server side of the shared-memory transport (qb_ipcs_shm_connect, qb_ipcs_shm_rb_open, qb_ipcs_shm_disconnect) with ARBITRARY peer credentials, accept verdict (0 or any negative code) and, optionally, an ARBITRARY owner/group/mode chosen by the accept callback through qb_ipcs_connection_auth_set, for each of 11 transport failure points (none; k-th ring cannot be opened / chown'ed / chmod'ed; main loop refuses the descriptor). A ghost file system records owner and mode of the temporary directory and of every ring over its whole life. Decided: accept sees exactly the peer's uid/gid and runs before any channel exists; a refusal returns and reports the callback's code, opens no channel, reaches no created/message callback, leaves no file, directory or list entry; any failed connect leaves nothing; on success the three channels and the directory are owned by the authorised user/group, channels carry the authorised mode and were never more permissive than 0600 | authorised mode; the directory is never accessible to others.",
+ "level_text": "CBMC bounded model checking of the real admission path: (A) qb_ipc_auth_creds over a received message whose ancillary buffer holds an SCM_CREDENTIALS record with ARBITRARY pid/uid/gid, alone or behind a record of another type; (B) one handle_new_connection() (lib/ipc_setup.c) through the real lib/ipcs.c and the real server side of the shared-memory transport (qb_ipcs_shm_connect, qb_ipcs_shm_rb_open, qb_ipcs_shm_disconnect) with ARBITRARY peer credentials, accept verdict (0 or any negative code) and, optionally, an ARBITRARY owner/group/mode chosen by the accept callback through qb_ipcs_connection_auth_set, for each of 12 failure points (none; k-th ring cannot be opened / chown'ed / chmod'ed; main loop refuses the descriptor; the handshake reply cannot be sent because the client died). A ghost file system records owner and mode of the temporary directory and of every ring over its whole life. Decided: accept sees exactly the peer's uid/gid and runs before any channel exists; a refusal returns and reports the callback's code, opens no channel, reaches no created/message callback, leaves no file, directory or list entry; any failed connect leaves nothing; on success the three channels and the directory are owned by the authorised user/group, channels carry the authorised mode and were never more permissive than 0600 | authorised mode; the directory is never accessible to others.",
  "level_note": "Ring files are a contract stub of qb_rb_open/qb_rb_chown/qb_rb_chmod/qb_rb_close (created 0600 by the server, creator unlinks on close); the kernel side of SO_PASSCRED (that the ancillary record is the peer's effective credentials), the socket transport's files, concurrent connects and the client half of the handshake are not decided. Directory names are a fixed model string. Trusted: CBMC, the ghost file system.",
  "technique": "CBMC bounded model checking (SAT) of real C code with symbolic credentials, verdicts and owner/mode choices over a ghost file system; one obligation per transport failure point",
  "assumptions": ["allocation never fails", "accept callback returns 0 or a negative errno", "authorised mode within 0777"],
@@ -11,7 +11,7 @@ STUBS = ["ghost file system: mkdtemp/chmod/chown/rmdir", "qb_rb_open/chown/chmod
 def obligations(tier):
     obs = [Obl("creds", "c05_admit.c", defs=["PART=1"], unwind=4, timeout=300, mem_gb=4, object_bits=9,
                bounds={"ancillary_records": "1..2", "pid/uid/gid": "all 32-bit values"}, units=["lib/ipc_setup.c (qb_ipc_auth_creds)"], stubs=STUBS)]
-    for f in range(11):
+    for f in range(12):
         for a in (0, 1):
             obs.append(Obl("admit-fail%d-auth%d" % (f, a), "c05_admit.c", defs=["PART=2", "FAIL_AT=%d" % f, "SET_AUTH=%d" % a],
                            unwind=8, unwindset={"strlen.0": 17, "verif_strrchr": 17}, timeout=600, mem_gb=4, object_bits=9, expect_unreached=("accepted path" if f else None),
